@@ -167,8 +167,13 @@ def on_closed_suffix(toks):
     return ("ClosedOther",)
 
 
+_LAST_TURBO = [None]
+
+
 def user_call(toks):
-    """actor.m::<G>(args)[.await]  |  A::<..>::m::<G>(args)[.await]  -> (ucall, await)"""
+    """actor.m::<G>(args)[.await]  |  A::<..>::m::<G>(args)[.await]  -> (ucall, await); the generic arguments of a method call
+    are left in _LAST_TURBO[0] (list of texts, None when the call has no turbofish)"""
+    _LAST_TURBO[0] = None
     aw = False
     if len(toks) >= 2 and is_p(toks[-2], ".") and is_id(toks[-1], "await"):
         aw = True
@@ -181,6 +186,8 @@ def user_call(toks):
     e = match(head, "$r:ident . $m:ident")
     if e is None:
         e = match(head, "$r:ident . $m:ident :: < $g:rest >")
+        if e is not None:
+            _LAST_TURBO[0] = [render(x) for x in split_top(e["g"]) if x]
     if e is not None:
         return ("UMethod", ("SVar", e["r"].s), e["m"].s, args), aw
     # static path call
@@ -228,9 +235,9 @@ def arm_body(stmts, actor_name="inter_actor"):
     e = match(st, "$tx:ident . send ( $call:rest ) $suffix:rest")
     if e is not None and e["tx"].s not in (actor_name, "actor") and (lock is None or e["tx"].s != lock["binder"]):
         call, aw = user_call(e["call"])
-        return {"lock": lock, "call": call, "await": aw, "reply": (("SVar", e["tx"].s), on_closed_suffix(e["suffix"]))}
+        return {"lock": lock, "call": call, "await": aw, "reply": (("SVar", e["tx"].s), on_closed_suffix(e["suffix"])), "turbo": _LAST_TURBO[0]}
     call, aw = user_call(st)
-    return {"lock": lock, "call": call, "await": aw, "reply": None}
+    return {"lock": lock, "call": call, "await": aw, "reply": None, "turbo": _LAST_TURBO[0]}
 
 
 def parse_arm(pat, body, actor_name="inter_actor"):
@@ -559,7 +566,7 @@ def parse_slf(m, stmts):
         return U(m["body"])
     binds = [render(b) for b in split_top(e["binds"])]
     call, caw = user_call(r["call"])
-    return ("BSlf", {"guard": guard, "binds": binds, "stop_on": e["s"].s, "stop_await": aw, "call": call, "await": caw, "else": els})
+    return ("BSlf", {"guard": guard, "binds": binds, "stop_on": e["s"].s, "stop_await": aw, "call": call, "await": caw, "else": els, "turbo": _LAST_TURBO[0]})
 
 
 def parse_chan_ctor(path_segs, args):
@@ -812,7 +819,17 @@ def parse_expansion(text, n_user_items=1):
                     mdl["traits"].append(rec)
         else:
             out["unknown"].append(render(it["all"]))
+    # names of the user's own `async fn` methods: a dispatch arm must await exactly those
+    ua = []
+    for it in items[:n_user_items]:
+        if it.get("kw") == "impl" and it.get("body") is not None:
+            for mi in split_items(it["body"].sub):
+                f = parse_fn(mi)
+                if f is not None and f.get("async"):
+                    ua.append(f["name"])
+    out["user_async"] = ua
     for mdl in out["models"]:
+        mdl["user_async"] = ua
         analyse_model(mdl)
     return out
 
